@@ -41,7 +41,8 @@ def _fit(T, k, kerr, func, lin_x, lin_y, backtransfm, linearized=False):
         return lopt
     from scipy.optimize import curve_fit
 
-    popt, pcov = curve_fit(func, T, k, lopt, kerr)
+    # curve_fit calls f(xdata, *params) whereas func takes (*params, T):
+    popt, pcov = curve_fit(lambda _T, *params: func(*params, _T), T, k, lopt, kerr)
     return popt, pcov
 
 
